@@ -131,7 +131,18 @@ func famIter(w *bufio.Writer, seed uint64, n int) error {
 		}
 		maxTries := []int{100, 1, 2, 0}[r.intn(4)]
 		moss.DefaultNaiveSeekToMaxTries = maxTries
-		incl := false
+		// IncludeDeletions in a quarter of the cases - when the lower level holds no deletion entry
+		// (the model's lower level is the list of live entries its own iterator yields)
+		incl := r.chance(1, 4)
+		if incl && d.LLPresent && d.LL != nil {
+			for _, seg := range d.LL.Segs {
+				for _, e := range seg {
+					if e.Op == moss.OperationDel {
+						incl = false
+					}
+				}
+			}
+		}
 		it, err := ss.StartIterator(start, end, moss.IteratorOptions{IncludeDeletions: incl})
 		prog := []sx{"prog"}
 		res := []sx{"results"}
